@@ -13,7 +13,9 @@ import tempfile
 
 HERE = os.path.dirname(os.path.abspath(__file__))
 sys.path.insert(0, HERE)
-sys.path.insert(0, "/repo")
+import os as _os
+REPO = _os.environ.get("VERIF_REPO", "/repo")  # scratch worktree for seeded-change runs; registered checks use /repo
+sys.path.insert(0, REPO)
 
 import cmapio  # noqa: E402
 import gens  # noqa: E402
@@ -446,7 +448,7 @@ def run_cli(sc: Scenario, mode, workdir, cpus=2, tag="cli", extra_argv=None):
         cmapio.write_cmap(qpath, sc.queries, rng)
     opath = os.path.join(workdir, f"{tag}_{mode}_{cpus}.xmap")
     argv = cli_args(sc, rpath, qpath, opath, mode, cpus) + list(extra_argv or [])
-    p = subprocess.run(["/venv/bin/python", "-m", "src.program"] + argv, cwd="/repo", capture_output=True, text=True,
+    p = subprocess.run(["/venv/bin/python", "-m", "src.program"] + argv, cwd=REPO, capture_output=True, text=True,
                        timeout=600)
     base, ext = os.path.splitext(opath)
     files = {}
